@@ -22,7 +22,10 @@ import numpy as np
 from ..core import Violation, feq, short
 
 RUNS = {"quick": 8000, "thorough": 200000}
-SELFCHECK = {"quick": 16, "thorough": 48}
+SELFCHECK = {"quick": 32, "thorough": 96}
+# fresh-interpreter lane of the self-check runs under python -O as well (the
+# operations of this engine do not depend on an assert of the pinned code)
+FRESH_OPTIMIZE = True
 CHUNK = 50
 LEVEL = "exploration"
 RULE = ("each run = seeded history of 3-30 operations of one process over a "
